@@ -662,7 +662,8 @@ func (c *Client) Batch(ctx context.Context, payloads ...kmip.OperationPayload) (
 // BatchOpt sends a batch of KMIP operation payloads to the server and applies optional batch options.
 // It constructs a KMIP request message with the provided payloads and applies any BatchOption functions.
 // The request is sent using the client's Roundtrip method. If the response's batch count does not match
-// the number of payloads, an error is returned. On success, it returns the batch result items.
+// the number of payloads, or if a successful item does not carry the response payload of the operation
+// requested at the same position, an error is returned. On success, it returns the batch result items.
 //
 // Parameters:
 //   - ctx: Context for request cancellation and timeout.
@@ -684,6 +685,17 @@ func (c *Client) BatchOpt(ctx context.Context, payloads []kmip.OperationPayload,
 	// Check batch item count
 	if int(resp.Header.BatchCount) != len(resp.BatchItem) || len(resp.BatchItem) != len(payloads) {
 		return nil, withItemErrors(errors.New("Batch count mismatch"), resp.BatchItem)
+	}
+	// Check that every successful item carries the response payload of the requested operation
+	for i := range resp.BatchItem {
+		bi := &resp.BatchItem[i]
+		if bi.ResultStatus != kmip.ResultStatusSuccess {
+			continue
+		}
+		if bi.ResponsePayload == nil || bi.ResponsePayload.Operation() != payloads[i].Operation() {
+			err := fmt.Errorf("Unexpected response payload %T for operation %q (batch item %d)", bi.ResponsePayload, ttlv.EnumStr(payloads[i].Operation()), i)
+			return nil, withItemErrors(err, resp.BatchItem)
+		}
 	}
 	return resp.BatchItem, nil
 }
